@@ -27,8 +27,14 @@ RULE = ("every entry point (OVF, VBox, PVS, Parallels DiskDescriptor.xml) x ever
         "(gen_configs.Enc: decimal / hex character references with leading zeros, numeric & and <, predefined entities, CDATA sections "
         "incl. split ]]>, mixed with comments / PIs carrying & and DOCTYPE / ENTITY look-alikes inside character data) over media names "
         "that contain & < > quotes ]]> CR/LF/TAB non-ASCII and reference-looking text: must parse to the logical strings. "
-        "Non-trivial = the document carries a DOCTYPE or uses a non-literal spelling; distinct (entry, kind, variant).")
-ASSUMPTIONS = ["expat and defusedxml internals are trusted (the model is the decision logic over the event stream; the runtime shows "
+        "On every run, per entry point: documents without DOCTYPE grown to the 1 MiB boundary (+-1, +4096) and to 1.5-3 MiB by a comment in "
+        "the prolog / character data in the free-text element / a comment before the root's end tag / a comment behind the root (must parse "
+        "to the writer's content), and nested-entity documents (depth 5..8) whose reference is an attribute or the first text of the root "
+        "element. Every document expected to be refused is handled under tracemalloc (after a warm-up): the peak must stay below "
+        "512 KiB + 24 bytes per character of the document (work before refusal), else the answer is WORK:... instead of E. "
+        "Non-trivial = the document carries a DOCTYPE or uses a non-literal spelling or is one of the large ones; distinct (entry, kind, variant).")
+ASSUMPTIONS = ["memory is observed with tracemalloc (Python allocator domains; pyexpat and _elementtree allocate through PyObject_Malloc)",
+               "expat and defusedxml internals are trusted (the model is the decision logic over the event stream; the runtime shows "
                "the library honours it)", "the event stream given to the model is produced by pyexpat on the harness side and cut at "
                "the first entity event", "for parsed documents the content answer of the model is the construction truth (content is C18's model)"]
 TIMEOUT_CASE = 20.0
@@ -60,6 +66,137 @@ def apply_variant(xml: str, variant: str):
         data = xml.encode("utf-8")
         return data
     return xml
+
+
+# --------------------------------------------------------------------------- directed: large documents without entity declarations
+
+MIB = 1 << 20
+LARGE_AT = ("prolog", "slot", "tail", "epilog")
+LARGE_BOUNDARY = (MIB, MIB + 1, MIB - 1, MIB + 4096, MIB + 17)
+LARGE_BIG = (2 * MIB + 17, 3 * MIB, MIB + MIB // 2, 2 * MIB)
+_FILL = "snapshot 2024-01-01T00:00:00Z state=saved cpu=2 ram=4096 <b> & | "
+
+
+def _filler(n: int, comment: bool) -> str:
+    """exactly n characters of harmless markup: a comment (n >= 7) or escaped character data"""
+    if comment:
+        body = (_FILL.replace("&", "and") * (n // len(_FILL) + 1))[: n - 7]
+        return "<!--" + (body[:-1] + "." if body.endswith("-") else body) + "-->"
+    units = ["snapshot 2024-01-01T00:00:00Z ", "state=saved ", "&lt;b&gt; ", "&amp; ", "cpu=2 ram=4096 | "]
+    block = "".join(units)
+    out = [block] * (n // len(block))
+    rest = n - len(block) * len(out)
+    for u in units:
+        if len(u) <= rest:
+            out.append(u)
+            rest -= len(u)
+    return "".join(out) + "." * rest
+
+
+def _root_span(xml: str):
+    """(offset of the root start tag, offset just behind its '>') - quote aware"""
+    i = 0
+    while True:
+        i = xml.index("<", i)
+        if xml.startswith("<?", i):
+            i = xml.index("?>", i) + 2
+        elif xml.startswith("<!--", i):
+            i = xml.index("-->", i) + 3
+        elif xml.startswith("<!DOCTYPE", i):
+            j = i
+            depth, q = 0, None
+            while True:
+                c = xml[j]
+                if q:
+                    q = None if c == q else q
+                elif c in "\"'":
+                    q = c
+                elif c == "[":
+                    depth += 1
+                elif c == "]":
+                    depth -= 1
+                elif c == ">" and depth == 0:
+                    break
+                j += 1
+            i = j + 1
+        else:
+            break
+    j, q = i, None
+    while True:
+        c = xml[j]
+        if q:
+            q = None if c == q else q
+        elif c in "\"'":
+            q = c
+        elif c == ">":
+            return i, j + 1
+        j += 1
+
+
+def enlarge(xml: str, at: str, target: int, as_bytes: bool) -> str:
+    """the same document grown to exactly `target` characters (bytes when handed over as UTF-8 bytes) by harmless markup at
+    `at`: a comment between the XML declaration and the root, character data in the free-text slot (marker @@SLOT@@), a
+    comment in front of the root's end tag, a comment behind the root element"""
+    size = (lambda t: len(t.encode("utf-8"))) if as_bytes else len
+    need = target - (size(xml) - (len("@@SLOT@@")))
+    if need < 16:
+        raise ValueError("document already larger than the target")
+    if at == "slot":
+        return xml.replace("@@SLOT@@", _filler(need, False))
+    xml = xml.replace("@@SLOT@@", "")
+    if at == "prolog":
+        a, _ = _root_span(xml)
+        return xml[:a] + _filler(need, True) + xml[a:]
+    if at == "tail":
+        a = xml.rindex("</")
+        return xml[:a] + _filler(need, True) + xml[a:]
+    if at == "epilog":
+        return xml.rstrip("\n") + _filler(need, True) + ("\n" if xml.endswith("\n") else "")
+    raise ValueError(at)
+
+
+def large_cases(rng, tier):
+    """every run: per entry point and per place of growth one document at the 1 MiB boundary and one of 1.5-3 MiB, none with
+    a DOCTYPE: all must parse to the writer's content"""
+    out = []
+    k = rng.randrange(20)
+    for ei, entry in enumerate(gen_configs.ENTRIES):
+        for ai, at in enumerate(LARGE_AT):
+            sizes = [LARGE_BOUNDARY[(k + ei + ai) % len(LARGE_BOUNDARY)], LARGE_BIG[(k + ei + ai) % len(LARGE_BIG)]]
+            if tier != "quick":
+                sizes = list(LARGE_BOUNDARY) + list(LARGE_BIG)
+            for si, target in enumerate(sizes):
+                v = "plain" if entry == "hdd_descriptor" or (ei + ai + si) % 2 == 0 else "bytes"
+                out.append({"id": f"large-{entry}-{at}-{target}-{v}", "recipe": {"entry": entry, "kind": "large", "seed": rng.getrandbits(32), "benign": False,
+                                                                                 "variant": v, "at": at, "target": target}, "queries": ["parse"]})
+    return out
+
+
+# --------------------------------------------------------------------------- directed: entity references at the very start of the document
+
+EARLY_AT = ("root_attr", "root_text")
+
+
+def early_ref(xml: str, at: str, ref: str) -> str:
+    """the hostile document with one more reference to its entity: in an attribute of the root element / as the first
+    character data of the root element"""
+    a, b = _root_span(xml)
+    if at == "root_attr":
+        m = re.match(r"<[^\s/>]+", xml[a:])
+        return xml[:a + m.end()] + f' zzref="{ref}"' + xml[a + m.end():]
+    return xml[:b] + ref + xml[b:]
+
+
+def early_cases(rng, tier):
+    """every run: every entry point x nested-entity documents (depth 5..8) whose reference sits at the start of the root"""
+    out = []
+    for entry in gen_configs.ENTRIES:
+        for d in (5, 6, 7, 8):
+            for at in EARLY_AT:
+                for v in (["plain", "bytes"] if entry != "hdd_descriptor" else ["plain"]):
+                    out.append({"id": f"early-{entry}-{d}-{at}-{v}", "recipe": {"entry": entry, "kind": f"billion_laughs_{d}", "seed": rng.getrandbits(32),
+                                                                             "benign": False, "variant": v, "ref_at": at}, "queries": ["parse"]})
+    return out
 
 
 def events_of(doc) -> list[str]:
@@ -125,11 +262,16 @@ def generate(seed, tier):
                 cases.append({"id": f"{rd}-{hc['name']}-{v}-{len(cases)}", "recipe": {"entry": hc["entry"], "kind": hc["kind"], "seed": hc["seed"],
                                                                                    "benign": False, "variant": v, "slot": hc["slot"]},
                               "queries": ["parse"]})
+    cases += large_cases(rng, tier)
+    cases += early_cases(rng, tier)
     return cases
 
 
 def _case_doc(case):
     r = case["recipe"]
+    if r["kind"] == "large":
+        xml, truth = gen_configs._body(r["entry"], r["seed"], "@@SLOT@@", None)
+        return apply_variant(enlarge(xml, r["at"], r["target"], r["variant"] == "bytes"), r["variant"]), truth, "parse", False
     if r["kind"].startswith("spelled_"):
         xml, truth = gen_configs._body(r["entry"], r["seed"], r["slot"], None, enc_style=r["kind"][len("spelled_"):])
         return apply_variant(xml, r["variant"]), truth, "parse", False
@@ -140,6 +282,8 @@ def _case_doc(case):
     if r["benign"]:
         doctype, slot, expect = None, re.sub(r"&\w+;", "x", slot)[:64], "parse"
     xml, truth = gen_configs._body(r["entry"], r["seed"], slot, doctype)
+    if r.get("ref_at"):
+        xml = early_ref(xml, r["ref_at"], slot)
     return apply_variant(xml, r["variant"]), truth, expect, doctype is not None
 
 
@@ -153,8 +297,10 @@ def build(case):
     kind = case["recipe"]["kind"]
     spelled = kind.startswith("spelled_")
     b = Built({}, t, {"branches": [case["recipe"]["entry"], expect, "variant-" + case["recipe"]["variant"]] + (["doctype"] if has_dt else [])
-                      + ([kind, case["recipe"]["entry"] + "/" + kind] if spelled else []),
-                      "in_scope": True, "has_doctype": has_dt, "spelled": spelled and ("&#" in str(doc) or "<![CDATA[" in str(doc) or isinstance(doc, bytes))})
+                      + ([kind, case["recipe"]["entry"] + "/" + kind] if spelled else [])
+                      + (["large-" + case["recipe"]["at"], "large-%s-1MiB" % ("over" if case["recipe"]["target"] > MIB else "upto")] if kind == "large" else [])
+                      + (["entity-reference-at-" + case["recipe"]["ref_at"]] if case["recipe"].get("ref_at") else []),
+                      "in_scope": True, "has_doctype": has_dt, "large": kind == "large", "spelled": spelled and ("&#" in str(doc) or "<![CDATA[" in str(doc) or isinstance(doc, bytes))})
     b.doc = doc
     return b
 
@@ -174,53 +320,94 @@ def _hook(name, args):
         _AUDIT["events"].append(name)
 
 
+def _enter(entry, doc):
+    """hand the document to the entry point the way a user of the library does -> extracted content"""
+    if entry == "hdd_descriptor":
+        import tempfile
+        from pathlib import Path
+
+        from dissect.hypervisor.disk.hdd import Descriptor
+        with tempfile.TemporaryDirectory(prefix="hvc19.") as d:
+            p = Path(d) / "DiskDescriptor.xml"
+            if isinstance(doc, bytes):
+                p.write_bytes(doc)
+            else:
+                p.write_text(doc, encoding="utf-8")
+            desc = Descriptor(p)
+        top = desc.snapshots.top_guid
+        return {"storages": [[s.start, s.end, [[str(i.guid), i.type, i.file] for i in s.images]] for s in desc.storage_data.storages],
+                "top": str(top) if top is not None else None, "shots": [[str(s.guid), str(s.parent)] for s in desc.snapshots.shots]}
+    fh = io.BytesIO(doc) if isinstance(doc, bytes) else io.StringIO(doc)
+    if entry == "ovf":
+        from dissect.hypervisor.descriptor.ovf import OVF
+        return list(OVF(fh).disks())
+    if entry == "vbox":
+        from dissect.hypervisor.descriptor.vbox import VBox
+        return list(VBox(fh).disks())
+    from dissect.hypervisor.descriptor.pvs import PVS
+    return list(PVS(fh).disks())
+
+
+# Work before refusal. A document that declares entities has to be turned down without unfolding them: whatever the entry point
+# allocates while handling it is bounded by a small multiple of the text it was given (copies of the text: the handle's read(),
+# the UTF-8 encoding, the parser's buffer; 4 bytes per character at most) plus a constant for parser objects and the exception.
+# The bound comes from the document's size alone; a nested-entity document of 2-3 KB that unfolds to megabytes is far beyond it.
+WORK_CONST = 512 * 1024
+WORK_PER_CHAR = 24
+_WARM = set()
+
+
+def work_bound(doc) -> int:
+    return WORK_CONST + WORK_PER_CHAR * len(doc)
+
+
+def _warm(entry):
+    """imports, regex / XPath caches, first-use allocations: outside the measured window"""
+    if entry in _WARM:
+        return
+    _WARM.add(entry)
+    for dt in (None, '<!DOCTYPE %ROOT% [\n<!ENTITY w "w">\n]>'):
+        try:
+            _enter(entry, gen_configs._body(entry, 1, "x" if dt is None else "&w;", dt)[0])
+        except Exception:  # noqa
+            pass
+
+
 def impl_run(case, built):
     global _HOOKED
     import sys
+    import tracemalloc
     if not _HOOKED:
         sys.addaudithook(_hook)
         _HOOKED = True
     r = case["recipe"]
     doc = built.doc
+    measure = built.truth == ["E"]
+    peak = 0
+    if measure:
+        _warm(r["entry"])
     _AUDIT["events"] = []
     _AUDIT["on"] = True
     try:
+        if measure:
+            tracemalloc.start()
         try:
-            if r["entry"] == "hdd_descriptor":
-                import tempfile
-                from pathlib import Path
-
-                from dissect.hypervisor.disk.hdd import Descriptor
-                with tempfile.TemporaryDirectory(prefix="hvc19.") as d:
-                    p = Path(d) / "DiskDescriptor.xml"
-                    if isinstance(doc, bytes):
-                        p.write_bytes(doc)
-                    else:
-                        p.write_text(doc, encoding="utf-8")
-                    desc = Descriptor(p)
-                top = desc.snapshots.top_guid
-                res = {"storages": [[s.start, s.end, [[str(i.guid), i.type, i.file] for i in s.images]] for s in desc.storage_data.storages],
-                       "top": str(top) if top is not None else None, "shots": [[str(s.guid), str(s.parent)] for s in desc.snapshots.shots]}
-            else:
-                fh = io.BytesIO(doc) if isinstance(doc, bytes) else io.StringIO(doc)
-                if r["entry"] == "ovf":
-                    from dissect.hypervisor.descriptor.ovf import OVF
-                    res = list(OVF(fh).disks())
-                elif r["entry"] == "vbox":
-                    from dissect.hypervisor.descriptor.vbox import VBox
-                    res = list(VBox(fh).disks())
-                else:
-                    from dissect.hypervisor.descriptor.pvs import PVS
-                    res = list(PVS(fh).disks())
+            res = _enter(r["entry"], doc)
             ans = ["P", canon(res)]
             err = {}
         except Exception as e:  # noqa
             ans, err = ["E"], {"0": f"{type(e).__name__}: {e}"[:200]}
+        finally:
+            if measure:
+                peak = tracemalloc.get_traced_memory()[1]
+                tracemalloc.stop()
     finally:
         _AUDIT["on"] = False
     if _AUDIT["events"]:
         ans = ["LEAK:" + ",".join(_AUDIT["events"][:3])]
-    return {"answers": ans, "errors": err}
+    elif measure and peak > work_bound(doc):
+        ans = [f"WORK:{peak}-bytes-allocated-for-a-{len(doc)}-character-document(bound {work_bound(doc)})"]
+    return {"answers": ans, "errors": err, "peak": peak}
 
 
 def model_lines(case, built):
@@ -244,7 +431,7 @@ def model_parse(case, built, out):
 
 
 def nontrivial(case, built, model):
-    return built.info["has_doctype"] or built.info.get("spelled", False)
+    return built.info["has_doctype"] or built.info.get("spelled", False) or built.info.get("large", False)
 
 
 def search(seed, broken, budget):
